@@ -289,7 +289,7 @@ theorem C01_cex_heartbeat_error_fatal :
     inside Write waits for it and is handed over; the heartbeat's ERROR answer leaves the user call waiting, which then
     gets its own response -/
 example : ∃ st, MuxOwn.run .code (MuxOwn.init 128)
-    [.reserve 1 5 .user, .register 1, .write 1, .answer 5 0 1, .writeReturned 1, .deliver 5] = some st ∧
+    [.reserve 1 5 .user, .register 1, .write 1, .answer 5 0 1, .writeReturned 1, .deliver 5, .release 1, .relDone 1] = some st ∧
     st.pc 1 = .done (.resp ⟨5, 0, 1⟩) ∧ st.lost 1 = false ∧ st.owner 5 = none := by
   refine ⟨_, rfl, ?_, ?_, ?_⟩ <;> decide
 
@@ -302,5 +302,124 @@ example : ∃ st, MuxOwn.run .code (MuxOwn.init 128)
      .answer 6 1 77, .deliver 6, .hbReact 2, .answer 5 0 9, .deliver 5] = some st ∧
     st.pc 1 = .done (.resp ⟨5, 0, 9⟩) ∧ st.closed = none := by
   refine ⟨_, rfl, ?_, ?_⟩ <;> decide
+
+/-! ## Schedule points inside exec's exits and releaseStream; several connections (round 7)
+
+`releaseStream` frees the id (`release`: streams.Clear) and then runs user code (the StreamObserver's StreamFinished
+callback) before it returns (`relDone`): between the two a new request may be given the very same id, register itself
+and write. The exits of exec before anything was written (`buildFailed`, `writeCancelled`) free the id too. All
+theorems: every action list of the machine in the configuration of the code that exists. -/
+
+/-- whenever a call is about to free its id (streams.Clear has not run yet) it still holds the id, it is NO LONGER
+    registered under it (recv's look-up or the early exit removed the registration BEFORE) and the peer holds nothing
+    for it: the id becomes free only when no response for it can arrive and nobody is registered under it -/
+theorem C01_release_window_safe (cap : Nat) (as : List MuxOwn.Act) (st : MuxOwn.St)
+    (h : MuxOwn.run .code (MuxOwn.init cap) as = some st) (c : Nat) (hr : st.rel c = .due) :
+    st.owner (st.sidOf c) = some c ∧ st.wire (st.sidOf c) = .none ∧ (st.closed = none → st.reg (st.sidOf c) = none) := by
+  have := (MuxOwn.inv_run as _ st (MuxOwn.inv_init cap) h).rel_ok c hr
+  exact ⟨this.1, this.2.1, this.2.2.1⟩
+
+/-- while a handler is registered for `s` on an open connection the id is held by that very call: the allocator cannot
+    hand `s` to another request, whatever other calls are doing inside releaseStream -/
+theorem C01_registered_id_is_held (cap : Nat) (as : List MuxOwn.Act) (st : MuxOwn.St)
+    (h : MuxOwn.run .code (MuxOwn.init cap) as = some st) (s d : Nat) (hr : st.reg s = some d) (ho : st.closed = none)
+    (c' : Nat) (w : MuxOwn.Who) : st.owner s = some d ∧ MuxOwn.step .code st (.reserve c' s w) = none := by
+  have := ((MuxOwn.inv_run as _ st (MuxOwn.inv_init cap) h).reg_pc s d hr).1 ho
+  refine ⟨this, ?_⟩
+  simp [MuxOwn.step, this]
+
+/-- the second sentence of the property on the finer machine: while the peer holds the request of call `c` on id `s`, or
+    its answer is under way - also after `c` timed out or was cancelled, and whatever other calls are doing inside
+    releaseStream - `s` is held by `c` and no other request can be given it -/
+theorem C01_own_no_reuse_while_late (cap : Nat) (as : List MuxOwn.Act) (st : MuxOwn.St)
+    (h : MuxOwn.run .code (MuxOwn.init cap) as = some st) (s c : Nat) (ho : st.closed = none)
+    (hw : st.wire s = .pending c ∨ ∃ f, st.wire s = .answered c f) (c' : Nat) (w : MuxOwn.Who) :
+    st.owner s = some c ∧ MuxOwn.step .code st (.reserve c' s w) = none :=
+  C01_registered_id_is_held cap as st h s c (C01_registered_before_written cap as st h s c hw) ho c' w
+
+/-- non-vacuity: call 1 on id 1 is cancelled, call 2 is parked inside releaseStream having freed id 64: id 64 can be
+    given out again, id 1 can not -/
+example : ∃ st, MuxOwn.run .code (MuxOwn.init 128)
+    [.reserve 1 1 .user, .register 1, .write 1, .writeReturned 1, .cancel 1,
+     .reserve 2 64 .user, .register 2, .write 2, .writeReturned 2, .answer 64 0 2, .deliver 64, .release 2] = some st ∧
+    st.wire 1 = .pending 1 ∧ (MuxOwn.step .code st (.reserve 3 1 .user)).isNone = true ∧
+    (MuxOwn.step .code st (.reserve 3 64 .user)).isSome = true := by
+  refine ⟨_, rfl, ?_, ?_, ?_⟩ <;> decide
+
+/-- addCall never finds another call registered under the id it was given ("attempting to use stream already in use"
+    is dead code as long as ids are freed only after the registration is gone) -/
+theorem C01_no_duplicate_registration (cap : Nat) (as : List MuxOwn.Act) (st : MuxOwn.St)
+    (h : MuxOwn.run .code (MuxOwn.init cap) as = some st) (c : Nat) : st.pc c ≠ .done .dupErr :=
+  (MuxOwn.inv_run as _ st (MuxOwn.inv_init cap) h).no_dup c
+
+/-- after an exit of exec before anything was written (buildFrame failed / context done while waiting for the write
+    slot) on an open connection, and the release that follows, the id is free, nobody is registered under it and the
+    peer holds nothing for it: the next request may use it safely -/
+theorem C01_early_exit_frees_id (cap : Nat) (as : List MuxOwn.Act) (st st1 st2 : MuxOwn.St)
+    (h : MuxOwn.run .code (MuxOwn.init cap) as = some st) (c : Nat) (ho : st.closed = none)
+    (h1 : MuxOwn.step .code st (.writeCancelled c) = some st1 ∨ MuxOwn.step .code st (.buildFailed c) = some st1)
+    (h2 : MuxOwn.step .code st1 (.release c) = some st2) :
+    st2.owner (st2.sidOf c) = none ∧ st2.reg (st2.sidOf c) = none ∧ st2.wire (st2.sidOf c) = .none := by
+  have inv := MuxOwn.inv_run as _ st (MuxOwn.inv_init cap) h
+  have inv1 : MuxOwn.Inv st1 := by
+    rcases h1 with h1 | h1 <;> exact MuxOwn.inv_step st st1 _ inv h1
+  have hc1 : st1.closed = none ∧ st1.rel c = .due := by
+    rcases h1 with h1 | h1 <;>
+    · simp only [MuxOwn.step] at h1
+      split at h1
+      · injection h1 with h1; subst h1; simp [MuxOwn.earlyExit, MuxOwn.upd, ho]
+      · simp at h1
+  have r := inv1.rel_ok c hc1.2
+  simp only [MuxOwn.step, hc1.2, if_true] at h2
+  injection h2 with h2; subst h2
+  simp only [MuxOwn.upd, if_true]
+  exact ⟨trivial, r.2.2.1 hc1.1, r.2.1⟩
+
+/-- Counterexample for the variant in which releaseStream removes the `c.calls` entry of its id AFTER it has freed the
+    id and run the observer callback (seeded change C01-8): call 1 is answered and, inside releaseStream, has freed id 1;
+    call 2 is given id 1, registers and writes; call 1's releaseStream now deletes the entry of id 1 - call 2's; the
+    peer's answer to call 2 finds no handler and is discarded. Replay: `ds 2 0 q5% d1 q5 q5 f1 d3`. -/
+theorem C01_cex_delete_after_clear :
+    ∃ st, MuxOwn.run { lateRegister := false, hbErrFatal := false, lateDelete := true } (MuxOwn.init 128)
+        [.reserve 1 1 .user, .register 1, .write 1, .writeReturned 1, .answer 1 0 1, .deliver 1, .release 1,
+         .reserve 2 1 .user, .register 2, .write 2, .writeReturned 2, .relDone 1, .answer 1 0 2, .deliver 1] = some st ∧
+      st.lost 2 = true ∧ st.pc 2 = .flight 1 true true true ∧ st.wire 1 = .none := by
+  refine ⟨_, rfl, ?_, ?_, ?_⟩ <;> decide
+
+/-- non-vacuity (the code that exists): the same history ends well - the second holder of id 1 gets its own answer -/
+example : ∃ st, MuxOwn.run .code (MuxOwn.init 128)
+    [.reserve 1 1 .user, .register 1, .write 1, .writeReturned 1, .answer 1 0 1, .deliver 1, .release 1,
+     .reserve 2 1 .user, .register 2, .write 2, .writeReturned 2, .relDone 1, .answer 1 0 2, .deliver 1] = some st ∧
+    st.pc 1 = .done (.resp ⟨1, 0, 1⟩) ∧ st.pc 2 = .done (.resp ⟨1, 0, 2⟩) ∧ st.lost 2 = false := by
+  refine ⟨_, rfl, ?_, ?_, ?_⟩ <;> decide
+
+/-- non-vacuity of the early exits: call 2 waits for the write slot behind call 1, its context is cancelled, its id is
+    freed and at once reused by call 3, which gets its own answer -/
+example : ∃ st, MuxOwn.run .code (MuxOwn.init 128)
+    [.reserve 1 1 .user, .register 1, .write 1, .reserve 2 64 .user, .register 2, .writeCancelled 2, .release 2, .relDone 2,
+     .writeReturned 1, .reserve 3 64 .user, .register 3, .write 3, .writeReturned 3, .answer 64 0 3, .deliver 64] = some st ∧
+    st.pc 2 = .done .ctxErr ∧ st.pc 3 = .done (.resp ⟨64, 0, 3⟩) := by
+  refine ⟨_, rfl, ?_, ?_⟩ <;> decide
+
+/-- SEVERAL CONNECTIONS of one process, their steps interleaved in any way: a call of connection `k` is handed only the
+    frame the peer OF CONNECTION `k` sent for its stream id, or an error of connection `k` that carries no frame -
+    nothing that happens on another connection (its answers, its close, the error it was closed with, calls leaving it
+    early) reaches it: the per-request rendezvous objects are not shared between connections -/
+theorem C01_connections_independent (cap : Nat) (as : List (Nat × MuxOwn.Act)) (m : Nat → MuxOwn.St)
+    (h : MuxOwn.mrun .code (fun _ => MuxOwn.init cap) as = some m) (k : Nat) :
+    MuxOwn.run .code (MuxOwn.init cap) (MuxOwn.proj k as) = some (m k) ∧
+    ∀ c o, (m k).pc c = .done o →
+      (∀ f, o = .resp f → (m k).sent c = some f ∧ f.sid = (m k).sidOf c) ∧ (∀ e, o = .connErr e → e = .plain) := by
+  have hk := MuxOwn.mrun_proj .code as _ m h k
+  exact ⟨hk, fun c o hd => C01_no_foreign_frame cap _ (m k) hk c o hd⟩
+
+/-- non-vacuity: connection 1 is closed by its peer while call 1 is inside Write and call 2 left early; call 3 on
+    connection 2 gets its own answer -/
+example : ∃ m, MuxOwn.mrun .code (fun _ => MuxOwn.init 128)
+    [(1, .reserve 1 1 .user), (1, .register 1), (1, .write 1), (1, .reserve 2 64 .user), (1, .register 2), (1, .close),
+     (1, .writeCancelled 2), (1, .release 2), (1, .relDone 2), (2, .reserve 3 1 .user), (2, .register 3), (2, .write 3),
+     (2, .writeReturned 3), (1, .writeReturned 1), (1, .connDone 1), (2, .answer 1 0 3), (2, .deliver 1)] = some m ∧
+    (m 1).pc 1 = .done (.connErr .plain) ∧ (m 1).pc 2 = .done .ctxErr ∧ (m 2).pc 3 = .done (.resp ⟨1, 0, 3⟩) := by
+  refine ⟨_, rfl, ?_, ?_, ?_⟩ <;> decide
 
 end C01
